@@ -23,7 +23,7 @@ def call(f, *a, **k):
 
 URL_PARTS = ["http://", "https://", "ftp://", "//", "", "HTTP://", "wss://", "x://"]
 HOSTS = ["lemonde.fr", "a.b.co.uk", "localhost", "127.0.0.1", "300.1.1.1", "x.notatld", "x.c", "é.fr", "xn--caf-dma.com", "a_b.com", "-a.com", "x.com.", "LEMONDE.FR", "u:p@x.com", "x", ""]
-TAILS = ["", "/", "/a b", "/a?q=1#f", ":8080/x", ":8/x", "?q", "#f", "/a\tb", " ", "/é", ":80"]
+TAILS = ["", "/", "/a b", "/a?q=1#f", ":8080/x", ":8/x", "?q", "#f", "/a\tb", " ", "/é", ":80", "/x@b.com", "?u=a@b.com", "#@lemonde.fr", "/p:q@x.fr/"]
 WORDS = ["see", "this", "link:", "and", "(", ")", ",", ".", "…", "»", "[", "]", "](", "]()", "!", "\n", "text", "http://", "www.x.com", "http://a.com/", "https://b.org/p?q=1",
          "http://x.a…", "http://c.com/a_(b)", "[http://a.com/](b.com)", "[http://u](p@x.com/", "[t](http://d.net)", "[http://a.com/](", "http://e.fr.", "http://f.com,http://g.com"]
 
@@ -72,6 +72,16 @@ def run(res, tier, rng):
                                and (not o["allow_spaces_in_path"] or o2["allow_spaces_in_path"]) and (not o2["only_http_https"] or o["only_http_https"]))
                     if relaxes and io[j] is not True:
                         res.violation("property", "is_url is not monotone: accepted with %s but not with the relaxed %s" % (o, o2), input=dict(string=s), impl=[io[i], io[j]])
+            # tld_aware: a string is only accepted when the host the standard parser sees is special or ends with a known tld
+            from ural.utils import safe_urlsplit as _ss
+            from ural.has_special_host import is_special_host as _special
+            from ural.tld import has_valid_tld as _valid
+            h_ = call(lambda x: _ss(x.strip()).hostname, s)
+            if isinstance(h_, str) and h_ and call(_special, h_) is False and call(_valid, h_) is False:
+                for i, o in enumerate(OPTS):
+                    if o["tld_aware"] and io[i] is True:
+                        res.violation("property", "is_url(tld_aware=True) accepts a string whose host has no valid tld", input=dict(string=s, host=h_, options=o), impl=io[i])
+                        break
             # outer whitespace
             io2 = [call(is_url, "  " + s + "\t\n", **o) for o in OPTS]
             if io2 != io:
